@@ -222,7 +222,11 @@ func (tds *Conn) ReadFrom() {
 
 		packet := &Packet{}
 		n, err := packet.ReadFrom(tds.ctx, tds.conn, time.Duration(tds.info.PacketReadTimeout)*time.Second)
-		if err != nil && !errors.Is(err, io.EOF) {
+		// A reader may return an error together with the last bytes of
+		// a packet. The packet is complete then, it is passed on before
+		// the error is reported.
+		complete := n >= PacketHeaderSize && n == int64(packet.Header.Length)
+		if err != nil && !errors.Is(err, io.EOF) && !complete {
 			if !tds.queueError(fmt.Errorf("error reading packet: %w", err)) {
 				return
 			}
@@ -252,12 +256,12 @@ func (tds *Conn) ReadFrom() {
 		tdsChan.WritePacket(packet)
 
 		// err from packet.ReadFrom
-		if errors.Is(err, io.EOF) {
-			// The connection was closed after the last bytes of the
-			// packet. Record the error so consumers are not left
-			// waiting for packages that will never arrive. Further
-			// reads keep reporting the closed connection, as they do
-			// when the EOF arrives on its own.
+		if err != nil {
+			// The connection was closed (or failed) after the last
+			// bytes of the packet. Record the error so consumers are
+			// not left waiting for packages that will never arrive.
+			// Further reads keep reporting the closed connection, as
+			// they do when the EOF arrives on its own.
 			if !tds.queueError(fmt.Errorf("error reading packet: %w", err)) {
 				return
 			}
